@@ -109,7 +109,7 @@ Theorem c04_vsock_ack_guarded_trace :
   forall CC (cci : cc_iface CC) mk c cfg (s0 : vsock CC) ops,
   C10_Pred.vconfig_ok c = true -> vsock_new cci mk c = Some s0 ->
   c04_vsock_ack_guarded cfg (ftrace cci s0 ops) = true.
-Proof. intros CC cci. exact (C04_Step.c04_vsock_ack_guarded_trace cci). Qed.
+Proof. exact (@C04_Step.c04_vsock_ack_guarded_trace). Qed.
 
 (* the guard in its two parts: inside the tolerance part (c04_tol_ok: at most WRAP_TOLERANCE sequence-carrying
    packets, 16-bit numbers) a failure of c04_vsock_ack_ok is of the known class D22 (c04_d22_class: the peer
@@ -119,7 +119,7 @@ Theorem c04_vsock_ack_or_d22_trace :
   forall CC (cci : cc_iface CC) mk c cfg (s0 : vsock CC) ops,
   C10_Pred.vconfig_ok c = true -> vsock_new cci mk c = Some s0 ->
   c04_vsock_ack_or_d22 cfg (ftrace cci s0 ops) = true.
-Proof. intros CC cci. exact (C04_Step.c04_vsock_ack_or_d22_trace cci). Qed.
+Proof. exact (@C04_Step.c04_vsock_ack_or_d22_trace). Qed.
 
 (* the same for c04_consumed_honest_ok (Conn/C04_Pred2.v: after EVERY event the number the endpoint would
    acknowledge is honest and has not moved back), under the same guard:
@@ -128,7 +128,7 @@ Theorem c04_consumed_honest_guarded_trace :
   forall CC (cci : cc_iface CC) mk c cfg (s0 : vsock CC) ops,
   C10_Pred.vconfig_ok c = true -> vsock_new cci mk c = Some s0 ->
   c04_consumed_honest_guarded cfg (ftrace cci s0 ops) = true.
-Proof. intros CC cci. exact (C04_Consumed.c04_consumed_honest_guarded_trace cci). Qed.
+Proof. exact (@C04_Consumed.c04_consumed_honest_guarded_trace). Qed.
 
 Theorem c04_peer_ok_split :
   forall cfg tr, c04_peer_ok cfg tr = c04_tol_ok cfg tr && negb (c04_d22_class cfg tr).
